@@ -416,7 +416,7 @@ Definition add_lf (hc : bool) (st : bstate) (hid : raw) (seq : raw) : bstate * o
       else ({| b_items := b_items st; b_sets := b_sets st; b_phys := b_phys st;
                b_lfs := b_lfs st ++ [{| l_hid := h; l_seq := z; l_ident := [48]; l_fh_origin := None; l_reg := [];
                                         l_nofmt := []; l_data := [] |}] |}, Accepted None)
-  | RStr _ _, RBool _ => (st, Rejected EOther)       (* bool is an int: outside the model *)
+  | RStr _ _, RBool _ => (st, Rejected EType)        (* a bool is not a sequence number (str(True) is not digits) *)
   | _, _ => (st, Rejected EType)
   end.
 
